@@ -46,6 +46,10 @@ func c11EvalWrite(c *Ctx, cs Case) {
 		c.Sample(cs)
 	}
 	rec := newRecFs(afero.NewMemMapFs())
+	fault, faultK := cs.S("fault"), int(cs.I("faultk"))
+	if fault != "" {
+		rec.faultK, rec.kind = faultK, fault
+	}
 	oldDir := attributes.Efivars
 	attributes.Efivars = dir
 	defer func() { attributes.Efivars = oldDir }()
@@ -71,9 +75,12 @@ func c11EvalWrite(c *Ctx, cs Case) {
 		fail("writing a variable panicked: "+msg, "")
 		return
 	}
-	if err != nil {
+	if err != nil && fault == "" {
 		fail("writing a variable failed on a healthy filesystem: "+err.Error(), "")
 		return
+	}
+	if err == nil && fault != "" {
+		fail("the filesystem failed the call ("+fault+fmt.Sprintf(" at call %d", faultK)+") and writing the variable reported success", "an error")
 	}
 	// ---- the efivarfs contract, from the property statement ----
 	wantPath := dir + "/" + name + "-" + canonGUIDText(g)
@@ -85,7 +92,7 @@ func c11EvalWrite(c *Ctx, cs Case) {
 		switch {
 		case strings.HasPrefix(l, "write("):
 			writes++
-			if l != "write("+hx(wantBuf)+")" {
+			if strings.TrimSuffix(l, "!") != "write("+hx(wantBuf)+")" {
 				fail("the buffer written is not the 4-byte little-endian attribute mask followed by the encoded value", "write("+hx(wantBuf)+")")
 			}
 		case strings.HasPrefix(l, "openfile("):
@@ -107,21 +114,38 @@ func c11EvalWrite(c *Ctx, cs Case) {
 			if (flag&os.O_APPEND != 0) != (attrs&0x40 != 0) {
 				fail("append mode must be used if and only if APPEND_WRITE is set", fmt.Sprintf("append=%v", attrs&0x40 != 0))
 			}
-		case l == "close" || l == "stat":
+		case l == "close" || l == "stat" || l == "close!":
 		default:
 			fail("the write touched something else: "+l, "one OpenFile, one Write, Close")
 		}
 	}
-	if writes != 1 || opens != 1 {
+	if fault == "" && (writes != 1 || opens != 1) || writes > 1 || opens > 1 {
 		fail(fmt.Sprintf("%d write operations on %d opened files", writes, opens), "exactly one write on one file")
 	}
 	// ---- correspondence with the Lean program model ----
 	c.Trace()
-	m := c.Drv.Ask("fs.write", append(append([]string{hx([]byte(dir)), hx([]byte(name))}, guidArgs(g)...), fmt.Sprint(attrs), hx(value))...)
+	margs := append(append([]string{hx([]byte(dir)), hx([]byte(name))}, guidArgs(g)...), fmt.Sprint(attrs), hx(value))
+	if fault != "" {
+		margs = append(margs, fmt.Sprint(faultK), fault)
+	}
+	m := c.Drv.Ask("fs.write", margs...)
 	goTrace := "ok"
+	if err != nil {
+		goTrace = "err"
+	}
 	for _, l := range log {
 		if strings.HasPrefix(l, "write(") {
-			l += fmt.Sprintf("=%d", len(wantBuf))
+			switch {
+			case !strings.HasSuffix(l, "!"):
+				l += fmt.Sprintf("=%d", len(wantBuf))
+			case fault == "short1":
+				l = strings.TrimSuffix(l, "!") + fmt.Sprintf("=%d", len(wantBuf)-1)
+			case fault == "short0":
+				l = strings.TrimSuffix(l, "!") + "=0"
+			}
+		}
+		if l == "close!" {
+			l = "close"
 		}
 		if l != "stat" {
 			goTrace += " " + l
@@ -247,6 +271,18 @@ func c11Gen(c *Ctx) {
 		for _, api := range []string{"object", "legacy"} {
 			c11EvalWrite(c, Case{"op": "write", "api": api, "class": k, "dir": dirs[i%len(dirs)], "name": hx([]byte(d.name)), "guid": hx(wireGUID(d.guid)), "attrs": int64(d.attrs), "value": hx(values[k])})
 		}
+		// the same write on a filesystem that fails or shortens one call: still at most one write,
+		// and the failure is reported
+		if i%4 == 0 || c.Thorough {
+			for _, api := range []string{"object", "legacy"} {
+				for _, f := range []struct {
+					k    int
+					kind string
+				}{{0, "error"}, {1, "error"}, {1, "short1"}, {1, "short0"}, {2, "error"}} {
+					c11EvalWrite(c, Case{"op": "write", "api": api, "class": k + "/fault-" + f.kind + fmt.Sprint(f.k), "dir": dirs[i%len(dirs)], "name": hx([]byte(d.name)), "guid": hx(wireGUID(d.guid)), "attrs": int64(d.attrs), "value": hx(values[k]), "fault": f.kind, "faultk": int64(f.k)})
+				}
+			}
+		}
 		// reads: stored masks equal / superset / subset / disjoint, short and absent files
 		req := d.attrs
 		masks := map[string]uint32{"equal": req, "superset": req | 0x88, "subset": req &^ (req & -req), "disjoint": ^req & 0xff}
@@ -266,7 +302,7 @@ func c11Gen(c *Ctx) {
 
 func init() {
 	register("C11", &PropDef{
-		Rule:   "every predefined efivar.Efivar (25, each also with APPEND_WRITE added) and random (name, GUID, attribute) definitions x values {empty, boolean, UTF-16 string, signature database, raw} x three efivars directories x the object API (EFIFS over FSWrapper.SetFS) and the legacy attributes.* API (fs.SetFS), on a recording afero.Fs; reads with stored masks {equal, superset, subset, disjoint} and absent / 0..3-byte files, with a probe value that records whether decoding was attempted. Every case is non-trivial; distinct = distinct cases.",
+		Rule:   "every predefined efivar.Efivar (25, each also with APPEND_WRITE added) and random (name, GUID, attribute) definitions x values {empty, boolean, UTF-16 string, signature database, raw} x three efivars directories x the object API (EFIFS over FSWrapper.SetFS) and the legacy attributes.* API (fs.SetFS), on a recording afero.Fs, healthy and with one failing or short call (OpenFile error, Write error, Write one byte short, Write of zero bytes, Close error); reads with stored masks {equal, superset, subset, disjoint} and absent / 0..3-byte files, with a probe value that records whether decoding was attempted. Every case is non-trivial; distinct = distinct cases.",
 		Assume: []string{"variable names contain no '/' and the efivars directory is a clean absolute path (path.Join would otherwise rewrite them)", "the legacy writer additionally probes the immutable flag of the same path on the real OS filesystem (attr.IsImmutable); that probe is outside the recorded afero.Fs and is noted, not checked"},
 		Eval:   c11Eval, Gen: c11Gen,
 	})
